@@ -141,8 +141,11 @@ def forced_component(comp, fs: np.ndarray, num_f: int):
 
 
 def path_products(ps: list[np.ndarray], forced: np.ndarray):
-    """product of the conditionals along each forced path; a path is dead (probability 0) once a factor is 0, whatever
-    (nan/inf) the sampler computes afterwards.  Returns (product, worst out-of-range excursion of a live parameter)."""
+    """product of the conditionals along each forced path.  A path is dead once a factor is 0 (whatever nan/inf the
+    sampler computes afterwards counts as probability 0).  Returns (product, worst excursion): the excursion of a Bernoulli
+    parameter outside [0,1] is weighted with the probability of the path so far, i.e. it is measured like every other
+    quantity of the property relative to w_0 (prev is a float32 difference; on a path of probability 2e-4 a parameter of
+    1.00002 is rounding residue worth 4e-9 of probability mass)."""
     B = forced.shape[0]
     prod = np.ones(B)
     dead = np.zeros(B, dtype=bool)
@@ -152,11 +155,10 @@ def path_products(ps: list[np.ndarray], forced: np.ndarray):
         live = ~dead
         pl = p[live]
         if pl.size:
-            bad = ~np.isfinite(pl)
-            if bad.any():
-                worst = np.inf
-            else:
-                worst = max(worst, float(np.max(np.maximum(-pl, pl - 1.0))))
+            exc = np.where(np.isfinite(pl), np.maximum(np.maximum(-pl, pl - 1.0), 0.0), np.inf)
+            with np.errstate(invalid="ignore"):
+                mass = np.where(prod[live] > 0, exc * prod[live], 0.0)
+            worst = max(worst, float(np.max(mass)))
         fac = np.where(forced[:, j], p, 1.0 - p)
         fac = np.where(dead, 0.0, fac)
         fac = np.nan_to_num(fac, nan=np.inf)
@@ -185,7 +187,7 @@ def check_component(ctx: Ctx, case: CircuitCase, ci: int, comp, num_f: int, rng,
     """sibling sums, bounds, normalisation, forced sampling for one component. Returns (fs, W) or None."""
     n = len(comp.compiled_scalar_graphs) - 1
     k = int(np.asarray(comp.f_selection).shape[0])
-    fs = f_assignments(k, rng, fcap)
+    fs = f_assignments(k, rng, max(1, min(fcap, (1 << 18) >> n)))     # batch F * 2^n rows per evaluate call
     where = dict(circuit=case.text, detectors=case.detectors, component=ci, output_indices=list(comp.output_indices))
     try:
         W = component_weights(comp, fs)
@@ -201,7 +203,7 @@ def check_component(ctx: Ctx, case: CircuitCase, ci: int, comp, num_f: int, rng,
         return None
     scale = w0[:, None]
     for i in range(n):
-        ctx.count(n=int(A[i].size))
+        ctx.count(bucket="sibling-sum-identities", n=int(A[i].size))
         sib = A[i + 1].reshape(len(fs), -1, 2)
         diff = np.abs(A[i] - sib.sum(axis=2)) / scale
         if not np.all(diff <= TOL):
@@ -239,13 +241,13 @@ def check_component(ctx: Ctx, case: CircuitCase, ci: int, comp, num_f: int, rng,
                           dict(where, kind="forced"))
             return None
         prod, worst = path_products(ps, forced)
-        ctx.count(n=int(prod.size))
+        ctx.count(bucket="forced-sampling-paths", n=int(prod.size))
         err = np.abs(prod - target)
-        if worst > 1e-5 or not np.all(err <= 1e-5):
+        if worst > TOL or not np.all(err <= 1e-5):
             r = int(np.argmax(np.where(np.isfinite(err), err, np.inf)))
             a, m = divmod(r, 2 ** n)
             ctx.violation("forced-conditionals",
-                          f"product of the conditionals the sampler used = {prod[r]:.9g}, but w_n(m)/w_0 = {target[r]:.9g}; worst excursion of a live "
+                          f"product of the conditionals the sampler used = {prod[r]:.9g}, but w_n(m)/w_0 = {target[r]:.9g}; worst probability-weighted excursion of a "
                           f"Bernoulli parameter outside [0,1]: {worst:.3g} (component {ci} with {n} outputs, f={fs[a].astype(int).tolist()}, "
                           f"m={forced[r].astype(int).tolist()}, circuit {case.key})",
                           dict(where, kind="forced", f=fs[a].astype(int).tolist(), outcome=forced[r].astype(int).tolist()))
@@ -522,15 +524,14 @@ def model_correspondence(ctx: Ctx, state: dict):
                 bad = None
                 if abs(model_mass - prod[r]) > 1e-5:
                     bad = f"model mass {model_mass:.9g} vs product of the implementation's conditionals {prod[r]:.9g}"
-                dead = False
+                mp = 1.0      # model probability of the path so far: differences are weighted with it (relative to w_0)
                 for step, cd in enumerate(cds):
                     cm = cd[0] / cd[1]
                     pi = float(np.broadcast_to(ps[step], (len(fs) * len(M),))[r])
                     ci_impl = pi if M[m][step] else 1.0 - pi
-                    if not dead and (not np.isfinite(ci_impl) or abs(cm - ci_impl) > 1e-5):
-                        bad = f"conditional {step}: model {cm:.9g} vs implementation {ci_impl:.9g}"
-                    if cm == 0:
-                        dead = True
+                    if mp > 0 and (not np.isfinite(ci_impl) or abs(cm - ci_impl) * mp > 1e-5):
+                        bad = f"conditional {step}: model {cm:.9g} vs implementation {ci_impl:.9g} (path probability so far {mp:.3g})"
+                    mp *= cm
                 if fol != ("Some", [bool(x) for x in M[m]]) and fol != ("Some", M[m].tolist()):
                     bad = f"model returns {fol} for draws {M[m].astype(int).tolist()}"
                 if bad:
@@ -591,7 +592,7 @@ def run(ctx: Ctx) -> int:
 
     plan = []   # (nq, detectors, max_out, out_cap, do_joint)
     if quick:
-        sizes = [1, 2, 2, 3, 3, 4, 4, 5, 6, 6, 8, 8, 10, 12, 16, 24, 40]
+        sizes = [1, 2, 3, 3, 4, 4, 5, 6, 6, 8, 8, 10, 12, 16, 20, 24, 32, 40, 40]
         max_out = 12
     else:
         sizes = [1, 2, 2, 3, 3, 3, 4, 4, 4, 5, 5, 6, 6, 6, 8, 8, 8, 10, 10, 12, 12, 14, 16, 16, 20, 24, 24, 32, 40, 40] * 3
@@ -600,16 +601,21 @@ def run(ctx: Ctx) -> int:
         plan.append((nq, (i % 4 == 3), max_out, (max_out if nq > 2 else 8), nq <= 8))
     cases = [(CircuitCase(t, d), 12, True) for t, d in FIXED]
     for nq, det, mo, oc, dj in plan:
-        txt = gen_circuit(prng, nq, bs_max=6, out_cap=oc if not (not quick and prng.random() < 0.3) else 16, nc_max=3, noise_max=4, detectors=det)
+        styles = ("ghz", "rand", "rand", "syn") if prng.random() < 0.5 else ("ghz", "ghz", "syn", "rand")
+        txt = gen_circuit(prng, nq, bs_max=6, out_cap=oc if not (not quick and prng.random() < 0.3) else 16, nc_max=3, noise_max=4, detectors=det, styles=styles)
         cases.append((CircuitCase(txt, det), mo, dj))
+    import time as _time
     for case, mo, dj in cases:
-        if len(ctx.violations) >= 4:
+        if ctx.violations:
             break
+        _t = _time.time()
+        _e = ctx.evaluations
         try:
             run_circuit(ctx, case, rng, state, max_out=mo, fcap=64 if quick else 256, trivial_cap=3 if quick else 8, do_joint=dj, jit_cap=2 if quick else 4)
         except Exception as e:  # noqa
             traceback.print_exc()
             ctx.broken.append(f"harness:exception on circuit {case.key}: {e!r}")
+        ctx.log(f"circuit {case.key} qubits={_num_qubits(case.text)} det={int(case.detectors)} evaluations={ctx.evaluations - _e} t={_time.time() - _t:.1f}s")
     ctx.cov["circuits"] = len(cases)
     if model_usable and not ctx.violations:
         try:
